@@ -282,10 +282,11 @@ def run_chunk(exe, text, keep_trace=False, timeout=600):
 
 def parse_res(line):
     # RES <id> end=<status> steps=<n> corr=<...> ;; mon=<...>
-    m = re.match(r'RES (\S+) end=(\S+)(?: [^ ]*=\S+)*? steps=(\d+) corr=(.*?) ;; mon=(.*)$', line)
+    m = re.match(r'RES (\S+) end=(\S+)(?: [^ ]*=\S+)*? steps=(\d+) corr=(.*?) ;; mon=(.*?)(?: ;; hb=(.*))?$', line)
     if not m:
-        return {'id': '?', 'end': '?', 'steps': 0, 'corr': 'unparsed: ' + line, 'mon': '?'}
-    return {'id': m.group(1), 'end': m.group(2), 'steps': int(m.group(3)), 'corr': m.group(4), 'mon': m.group(5)}
+        return {'id': '?', 'end': '?', 'steps': 0, 'corr': 'unparsed: ' + line, 'mon': '?', 'hb': 'ok'}
+    return {'id': m.group(1), 'end': m.group(2), 'steps': int(m.group(3)), 'corr': m.group(4), 'mon': m.group(5),
+            'hb': m.group(6) or 'ok'}
 
 
 def merge_stats(a, b):
